@@ -189,6 +189,17 @@ def run(ctx):
                                       what="(un)labeled_indices of a 2-D label array are not (row, column) pairs")
                         continue
                     rows = [codes[r * shape[1]:(r + 1) * shape[1]] for r in range(shape[0])]
+                    # direct oracle (the statement): the masks mark exactly the sentinel entries, the index arrays enumerate them in row-major order
+                    exp_u2 = [(r, c_) for r in range(shape[0]) for c_ in range(shape[1]) if rows[r][c_] == 0]
+                    exp_l2 = [(r, c_) for r in range(shape[0]) for c_ in range(shape[1]) if rows[r][c_] != 0]
+                    got_u2, got_l2 = [(int(a), int(b)) for a, b in ui2], [(int(a), int(b)) for a, b in li2]
+                    mask_ok = [[bool(b) for b in r] for r in np.asarray(u2)] == [[c_ == 0 for c_ in r] for r in rows] \
+                        and [[bool(b) for b in r] for r in np.asarray(l2)] == [[c_ != 0 for c_ in r] for r in rows]
+                    if not mask_ok or got_u2 != exp_u2 or got_l2 != exp_l2:
+                        ctx.violation("label_predicates_2d", "wrong_mask_or_indices",
+                                      f"array {a2.tolist()} (layout {(len(vals) + shape[0]) % 4}, sentinel {s!r}): unlabeled_indices={got_u2} expected {exp_u2}; labeled_indices={got_l2} expected {exp_l2}",
+                                      {"vals": repr(vals), "sentinel": repr(s), "dtype": name, "shape": shape, "layout": (len(vals) + shape[0]) % 4},
+                                      what="2-D label array: is_labeled / is_unlabeled / (un)labeled_indices do not mark / enumerate exactly the sentinel entries in order")
                     pred2.append(f"({zlit(0)}, {listlit([zlist(r) for r in rows])}, "
                                  f"{listlit([listlit([blit(b) for b in r]) for r in u2])}, {listlit([listlit([blit(b) for b in r]) for r in l2])}, "
                                  f"{listlit(['(%s, %s)' % (natlit(a), natlit(b)) for a, b in ui2])}, {listlit(['(%s, %s)' % (natlit(a), natlit(b)) for a, b in li2])})")
